@@ -10,8 +10,11 @@ use std::ffi::OsString;
 fn mark(c: &mut CmdSpec, path: &str) {
     for (i, a) in c.args.iter_mut().enumerate() {
         let base = format!("m{}x{}", path, i);
-        if a.long.is_some() {
-            a.long = Some(format!("{}lng", base));
+        if let Some(orig) = &a.long {
+            // the marker's length varies with the original name (rendered widths then vary too:
+            // some generators align on fixed columns)
+            let pad = (orig.len() * 5 + i * 3) % 13;
+            a.long = Some(format!("{}lng{}", base, "q".repeat(pad)));
         }
         for (k, al) in a.aliases.iter_mut().enumerate() {
             al.0 = format!("{}al{}", base, k);
